@@ -336,6 +336,11 @@ func c02Gen_(t *rapid.T, tier Tier) interface{} {
 	if rapid.IntRange(0, 5).Draw(t, "engine") == 0 {
 		c.Engine = "gotext"
 	}
+	if rapid.IntRange(0, 7).Draw(t, "firstletter") == 0 {
+		// the first letter of every paragraph in a box of its own (the words are read again across that box;
+		// floated first letters are not generated: they are moved behind the other boxes of their line)
+		extra += " p::first-letter{" + rapid.SampledFrom([]string{"color:red", "font-size:14px", "font-weight:bold;margin-right:2px", "text-transform:uppercase", "vertical-align:super"}).Draw(t, "fl") + "}"
+	}
 	if g.feat["page-counter-in-flow"] {
 		extra += ` .pc::after{content:" " counter(pages, lower-roman) "-" counter(page, lower-roman)}`
 	}
@@ -363,6 +368,7 @@ func c02Check(ci interface{}) Verdict {
 	pagesOf := map[string][]int{} // flow -> pages on which it appears
 	var laid [][]string           // per page: texts of drawable text boxes
 	splitPara := false
+	firstLetter := ""
 	for pi, p := range r.Pages {
 		var texts []string
 		wr.WalkBoxes(p, func(b bo.Box) bool {
@@ -377,6 +383,12 @@ func c02Check(ci interface{}) Verdict {
 			if tb.PseudoType == "marker" {
 				return true
 			}
+			if tb.PseudoType == "first-letter" {
+				// the rest of the word is in the next text box
+				firstLetter += txt
+				return true
+			}
+			txt, firstLetter = firstLetter+txt, ""
 			for _, m := range c02Token.FindAllStringSubmatch(txt, -1) {
 				ix, _ := strconv.Atoi(m[2])
 				seq[m[1]] = append(seq[m[1]], ix)
@@ -506,6 +518,9 @@ func c02Check(ci interface{}) Verdict {
 	}
 	if strings.Contains(c.HTML, "position:fixed") {
 		ls = append(ls, "fixed")
+	}
+	if strings.Contains(c.HTML, "::first-letter") {
+		ls = append(ls, "first-letter")
 	}
 	for _, k := range []string{"table", "float", "abspos", "inline-block", "footnote", "columns", "list", "flex", "grid"} {
 		if strings.Contains(c.HTML, map[string]string{"table": "<table", "float": "float:left", "abspos": "position:absolute", "inline-block": "inline-block", "footnote": "float:footnote", "columns": "columns:2", "list": "<li>", "flex": "display:flex", "grid": "display:grid"}[k]) || (k == "float" && strings.Contains(c.HTML, "float:right")) {
